@@ -302,7 +302,7 @@ def leBitsGeqThan (s : St F) (bits : List Cell) (bound : Nat) : Cell × St F :=
   if bound = 0 then assignFixed s 1
   else if bits.length < bound.log2 + 1 then assignFixed s 0
   else
-    match bits.length with
+    match _h : bits.length with
     | 0 => assignFixed s 0
     | 1 => (bits.getD 0 (advc 0 0 0), s)
     | n + 2 =>
